@@ -103,6 +103,8 @@ pub struct Device {
     pub expected_mailbox: Option<(u16, u16, u16, u16)>,
     sii_busy_left: u32,
     sii_cmd_errors_left: u32,
+    /// Command errors that start only after this many further successful word writes.
+    sii_cmd_errors_deferred: Option<(u32, u32)>,
     sii_status_hi: u8,
     /// Mailbox state.
     pub mbx_in_full: bool,
@@ -204,6 +206,7 @@ impl Device {
             expected_mailbox: None,
             sii_busy_left: 0,
             sii_cmd_errors_left: 0,
+            sii_cmd_errors_deferred: None,
             sii_status_hi: 0,
             mbx_in_full: false,
             mbx_out_full: false,
@@ -525,6 +528,14 @@ impl Device {
                     self.eeprom[base] = self.mem[REG_SII_DATA];
                     self.eeprom[base + 1] = self.mem[REG_SII_DATA + 1];
                     self.stats.sii_writes += 1;
+                    if let Some((after, errs)) = self.sii_cmd_errors_deferred {
+                        if after <= 1 {
+                            self.sii_cmd_errors_left = errs;
+                            self.sii_cmd_errors_deferred = None;
+                        } else {
+                            self.sii_cmd_errors_deferred = Some((after - 1, errs));
+                        }
+                    }
                 } else {
                     self.sii_status_hi |= 0x20;
                 }
@@ -548,6 +559,14 @@ impl Device {
     /// Arm `n` command errors for the following write commands.
     pub fn arm_sii_cmd_errors(&mut self, n: u32) {
         self.sii_cmd_errors_left = n;
+        self.sii_cmd_errors_deferred = None;
+    }
+
+    /// Let the next `successful` word writes go through, then answer `n` write commands with a
+    /// command error.
+    pub fn arm_sii_cmd_errors_after(&mut self, successful: u32, n: u32) {
+        self.sii_cmd_errors_left = 0;
+        self.sii_cmd_errors_deferred = Some((successful, n));
     }
 
     fn config_ok_for(&self, target: u8) -> Result<(), u16> {
